@@ -44,13 +44,14 @@ type SrvReq struct {
 }
 
 type SrvConnPlan struct {
-	Reqs       []SrvReq
-	Pipelined  bool
-	Writes     []int           // sizes of the client's successive writes over the concatenated request stream
-	Gaps       []time.Duration // pause before each write
-	Skip       bool            // twin runs: this connection is left out
-	AbortMid   bool
-	StartDelay time.Duration // the client connects this long after the start of the run
+	Reqs         []SrvReq
+	Pipelined    bool
+	Writes       []int           // sizes of the client's successive writes over the concatenated request stream
+	Gaps         []time.Duration // pause before each write
+	Skip         bool            // twin runs: this connection is left out
+	AbortMid     bool
+	StallAtReply int           // >0: the client stops reading in the middle of the n-th reply (the server write runs into its deadline)
+	StartDelay   time.Duration // the client connects this long after the start of the run
 }
 
 type SrvScenario struct {
@@ -61,6 +62,7 @@ type SrvScenario struct {
 	ReplyTimeout     time.Duration
 	StatelessDevice  bool // writes are validated and echoed but not stored
 	TimeoutWithData  bool // the server side reads sometimes return data together with the deadline error
+	Race             bool // race mode: free-running goroutines, no monitors
 	SharedHandlerErr bool // typed handler errors are one shared value (sentinel idiom)
 }
 
@@ -75,14 +77,15 @@ type SrvConnOut struct {
 }
 
 type SrvOutcome struct {
-	Conns     []SrvConnOut
-	Errors    []string
-	Panics    []PanicRec
-	Handled   []uint16 // tids in the order the handler saw them
-	ServeErr  error
-	ServeDone bool
-	Hang      bool
-	OverStep  bool
+	Conns      []SrvConnOut
+	Errors     []string
+	Panics     []PanicRec
+	Handled    []uint16 // tids in the order the handler saw them
+	ServeErr   error
+	SubjectSrv *Conn // server end of connection 0 (transport record)
+	ServeDone  bool
+	Hang       bool
+	OverStep   bool
 }
 
 type rawResp struct {
@@ -107,6 +110,8 @@ type srvHandler struct {
 }
 
 func (h *srvHandler) device(unit byte) *Device {
+	h.mu.Lock()
+	defer h.mu.Unlock()
 	d := h.dev[unit]
 	if d == nil {
 		d = NewDevice(Mix(h.seed, uint64(unit), 7))
@@ -187,6 +192,7 @@ func completeFrames(reqs []SrvReq, n int) int {
 func RunSrv(rc *RunCtx, sc *SrvScenario, sched *Tape, seed uint64, twinReplyLens [][]int) *SrvOutcome {
 	s := NewSim(sched)
 	s.Tracing = rc.Tracing
+	s.Free = sc.Race
 	out := &SrvOutcome{Conns: make([]SrvConnOut, len(sc.Conns))}
 	defer s.Activate()()
 
@@ -214,8 +220,11 @@ func RunSrv(rc *RunCtx, sc *SrvScenario, sched *Tape, seed uint64, twinReplyLens
 		sv.TimeoutWithData = sc.TimeoutWithData
 		if sc.LatencyMax > 0 {
 			cl.Latency = func() time.Duration {
-				return time.Duration(s.Tape.Choose(int(sc.LatencyMax/time.Microsecond)+1)) * time.Microsecond
+				return time.Duration(cl.choose(int(sc.LatencyMax/time.Microsecond)+1)) * time.Microsecond
 			}
+		}
+		if twinReplyLens == nil {
+			return // the write monitor is only needed for C15's "nothing before the request is complete" clause
 		}
 		sv.OnWrite = func(c *Conn, data []byte) {
 			s.mu.Lock()
@@ -265,6 +274,14 @@ func RunSrv(rc *RunCtx, sc *SrvScenario, sched *Tape, seed uint64, twinReplyLens
 			s.mu.Lock()
 			connIndex[cl.peer] = ci
 			s.mu.Unlock()
+			if ci == 0 {
+				out.SubjectSrv = cl.peer
+			}
+			if plan.StallAtReply > 0 {
+				cl.peer.lock()
+				cl.peer.PartialWriteAt = plan.StallAtReply
+				cl.peer.unlock()
+			}
 			stream := []byte{}
 			bounds := []int{}
 			for _, r := range plan.Reqs {
